@@ -259,3 +259,57 @@ class EnumView:
         for v in self.base.iterate(interp):
             yield (self.start + k, v)
             k += 1
+
+
+class AbsList:
+    """list of abstract objects with symbolic length: element k is produced by elem(k) (an interpreter object whose
+    leaf fields are terms over k, e.g. Select(SIZE, k)).  Used for Program.statements of arbitrary length."""
+
+    def __init__(self, length, elem, off=0):
+        self.len, self.elem, self.off = length, elem, off
+
+    def length(self):
+        return self.len
+
+    def getitem(self, interp, i):
+        if isinstance(i, slice):
+            if i.step is not None:
+                raise EngineError("stepped slice of AbsList")
+            n = self.len
+            lo = i.start if i.start is not None else 0
+            hi = i.stop if i.stop is not None else n
+            if branch(lo < 0):
+                lo = lo + n
+                if branch(lo < 0):
+                    lo = 0
+            elif branch(lo > n):
+                lo = n
+            if branch(hi < 0):
+                hi = hi + n
+                if branch(hi < 0):
+                    hi = 0
+            elif branch(hi > n):
+                hi = n
+            ln = (hi - lo) if branch(hi > lo) else 0
+            return AbsList(ln, self.elem, self.off + lo)
+        n = self.len
+        if not branch(And(i >= 0, i < n)):
+            if branch(And(i < 0, i >= -n)):
+                i = i + n
+            else:
+                interp.raise_("IndexError", "list index out of range")
+        return self.elem(self.off + i)
+
+    def iterate(self, interp):
+        k = 0
+        while branch(k < self.len):
+            if k > interp.unroll_limit:
+                raise EngineError("AbsList iteration exceeded the unroll limit (needs an invariant)")
+            yield self.elem(self.off + k)
+            k += 1
+
+    def eq(self, o):
+        return self is o
+
+    def method(self, interp, name, args, kwargs):
+        raise EngineError("AbsList.%s" % name)
